@@ -186,6 +186,8 @@ def run(tier: str) -> int:
         stats["cases"] += 1
         stats["by_wrap"][wrap] = stats["by_wrap"].get(wrap, 0) + 1
         stats["by_kind"][d["kind"]] = stats["by_kind"].get(d["kind"], 0) + 1
+        if d.get("dual"):
+            stats["dual_role_components"] = stats.get("dual_role_components", 0) + 1
         pub = {"spec": spec, "base": name, "wrapping": wrap, "collection": coll, "variables": vars_, "context_key": ck}
         node, err = None, None
         try:
@@ -242,7 +244,9 @@ def run(tier: str) -> int:
         # ---- correspondence with the model ---------------------------------------------------------------
         if m is not None:
             stats["model_compared"] += 1
-            if m.get("desc") is None or m.get("node") is None:
+            if d.get("dual") and (kind != d["kind"] or "pk16" in rd["created"]):
+                stats["dual_role_other_choice"] = stats.get("dual_role_other_choice", 0) + 1     # judged by the mirror oracle only
+            elif m.get("desc") is None or m.get("node") is None:
                 mism.append({"case": pub, "difference": "the factories accept what the model rejects", "real": rd})
             else:
                 md, mn = m["desc"], m["node"]
